@@ -37,11 +37,15 @@ AdvOf(x) == IF x = "c" THEN AdvC ELSE AdvS
 
 \* header lists travel by catalogue name in steps; the model works on the token sequences
 \* (recorded executions may carry a header list that is not in the catalogue: its tokens are then in field hx)
+NamedTokens(hn) == [i \in 1..Len(hn) |-> TOK[hn[i]]]       \* a header list given by the names of its fields (alphabet TOK)
 ResolveCall(c) == IF "hx" \in DOMAIN c THEN [c EXCEPT !.h = c.hx]
+                  ELSE IF "hn" \in DOMAIN c THEN [c EXCEPT !.h = NamedTokens(c.hn)]
                   ELSE IF "h" \in DOMAIN c THEN [c EXCEPT !.h = HL[@]] @@ [bl0 |-> BL0[c.h]] ELSE c
-FrameTokens(f) == IF "hx" \in DOMAIN f THEN f.hx ELSE HL[f.h]
+FrameTokens(f) == IF "hx" \in DOMAIN f THEN f.hx ELSE IF "hn" \in DOMAIN f THEN NamedTokens(f.hn) ELSE HL[f.h]
 \* frames of the harness peer (its encoder uses the table size the model says a conforming peer uses: H2!DecodeFailure)
-ResolveFrame(f, ep) == IF "h" \in DOMAIN f THEN [f EXCEPT !.h = FrameTokens(f)]
+\* (a field that arrives in a frame is octets, whatever type the list it was written from had)
+AsReceived(h) == [i \in 1..Len(h) |-> [h[i] EXCEPT !.ty = "b"]]
+ResolveFrame(f, ep) == IF "h" \in DOMAIN f THEN [f EXCEPT !.h = AsReceived(FrameTokens(f))]
                        ELSE IF f.t = "RAW" THEN f @@ [gt |-> HL["req_get"][1]]     \* the field a raw block octet decodes to
                        ELSE f
 
@@ -63,6 +67,15 @@ ACont(sid)            == [t |-> "CONT", sid |-> sid]
 AUnknown(sid)         == [t |-> "UNKNOWN", sid |-> sid]
 \* a frame given by its octets' structure (the frame layer, H2!RawParse); extra: what the payload holds
 ARaw(typ, fl, sid, len, extra) == extra @@ [t |-> "RAW", typ |-> typ, fl |-> fl, sid |-> sid, len |-> len, pad |-> -1]
+\* header lists built from a base list (of field names) by edits: deletions, insertions and replacements of one field
+EIns(b, i, t) == SubSeq(b, 1, i - 1) \o <<t>> \o SubSeq(b, i, Len(b))
+EDel(b, i) == SubSeq(b, 1, i - 1) \o SubSeq(b, i + 1, Len(b))
+ERep(b, i, t) == SubSeq(b, 1, i - 1) \o <<t>> \o SubSeq(b, i + 1, Len(b))
+Edit1(b, A) == {EDel(b, i) : i \in 1..Len(b)} \cup {EIns(b, i, t) : i \in 1..(Len(b) + 1), t \in A} \cup {ERep(b, i, t) : i \in 1..Len(b), t \in A}
+Edit2(b, A, A2) == Edit1(b, A) \cup UNION {Edit1(c, A2) : c \in Edit1(b, A)}
+AHN(sid, hn, es)      == [t |-> "HEADERS", sid |-> sid, es |-> es, h |-> "x", hn |-> hn, pr |-> <<>>, blk |-> "ok"]
+APPN(sid, pid, hn)    == [t |-> "PP", sid |-> sid, pid |-> pid, h |-> "x", hn |-> hn, blk |-> "ok"]
+CHdrN(sid, hn, es)    == [op |-> "hdr", sid |-> sid, h |-> "x", hn |-> hn, es |-> es, pr |-> <<>>]
 CInit(x)              == [a |-> "call", x |-> x, c |-> [op |-> "init"]]
 CUpg(from, pairs)     == [op |-> "upg", src |-> from, s |-> pairs]
 CCall(x, c)           == [a |-> "call", x |-> x, c |-> c]
